@@ -28,6 +28,7 @@ RULE = (
     "resolutions); after construction and after every step, per mortar side: integrated maps preserve totals, averaged maps "
     "send constants to constants, transposes agree, entries are non-negative, mortar measure equals the fracture measure. "
     "Non-trivial = at least 3 applied replacements; distinct = distinct sequence of (replacement kind, matching/non-matching, sides)."
+    " Since the second session: both neighbours replaced in one call, rejected mortar replacements, 1-d grids with non-monotone numbering, nodes a hair (below the matching tolerance) off the other grid's nodes, pickled / deep-copied interfaces, printing, the nd > 1 variants of all eight maps; drawn observation frequency; workload history3d covers the match_2d path on a gmsh simplex grid."
 )
 STATE_ABSTRACTION = "(mortar cells per side capped at 8, secondary cells capped at 8, primary fracture faces capped at 10, mortar non-matching flag, secondary replaced flag)"
 ASSUMPTIONS = [
